@@ -255,6 +255,8 @@ def main(seed, tier):
     from contracts import common as CC
     ids = [v for v in CC.bank_variants("DE")] + ["<NONE>"]
     specs += [("props.c07", "DispatchTask", (m,)) for m in ids if m not in unspecified]
+    from props import c02
+    specs += [x for x in c02.from_bban_flag_specs(["DE"]) if x[2][1] == 18]      # the flag reaches the German methods too
     results = common.run_tasks(specs, seed, tier)
     results.append(method_data_check())
     if unspecified:
